@@ -232,6 +232,12 @@ def run_index(ctx, pt):
                 nb = list(bl)
                 nb[i] = v
                 res('setitem-int', f, (from_bits(nb), n))
+
+                def fb():
+                    X = B(n, x)
+                    X[i] = Bits(v, 1)            # the value is a one-bit vector (e.g. b[i] = a[j])
+                    return X
+                res('setitem-int/one-bit-vector-value', fb, (from_bits(nb), n))
             else:
                 res('setitem-int', f, ('exc', 'IndexError'))
     rng = [None] + list(range(-n - 1, n + 2))
